@@ -5,7 +5,7 @@
 #   pristine tree: demo passes in both modes
 # On success stores /verif/seeded/<seed-id>/{patch.diff,demo.py,confirm.log} and prints CONFIRMED.
 WT=$1; SID=$2; PROP=$3
-T=/tmp/seedtools/wt
+T=/verif/tools/wt.sh
 OUT=/verif/seeded/$SID
 [ -d "$WT" ] || { echo "no worktree $WT"; exit 2; }
 [ -f "$WT/demo.py" ] || { echo "no demo.py"; exit 2; }
